@@ -153,6 +153,17 @@ fn raw_lib(g: &Graph, listing: &[usize]) -> raw::Library {
             lay.insts.push(raw::Instance { inst_name: format!("i{}", k), cell: cells[j].clone(), loc: raw::Point::new(k as isize, 0), reflect_vert: false, angle: None });
         }
     }
+    // leaf cells in all view combinations: odd-numbered sinks are abstract-only, every fourth cell has both views
+    for i in 0..n {
+        let mut c = cells[i].write().unwrap();
+        let abs = raw::Abstract::new(format!("c{}", i), raw::Polygon { points: vec![raw::Point::new(0, 0), raw::Point::new(2, 0), raw::Point::new(2, 2), raw::Point::new(0, 2)] });
+        if g[i].is_empty() && i % 2 == 1 {
+            c.abs = Some(abs);
+            c.layout = None;
+        } else if i % 4 == 0 {
+            c.abs = Some(abs);
+        }
+    }
     let mut lib = raw::Library::new("lib", raw::Units::Nano);
     for &i in listing {
         lib.cells.push(cells[i].clone());
